@@ -223,5 +223,20 @@ CHECKS["C19"] = dict(
     technique="TLA+ stage machine of tag resolution checked with TLC; every tag class replayed with concrete tags through from_json",
 )
 
+CHECKS["C11"] = dict(
+    engine="Match",
+    category="exploration",
+    text=("Match.tla: MatchSem over a fixed world with value-equal twins, an empty collection and equal collections: literal = "
+          "equality / membership, nested match = type + attributes of some element, match_any = common element, match_all = same "
+          "elements; results are domain elements by identity; a second world for type-filtering nested matches on a base-typed "
+          "collection; the expectation after an in-place edit of a collection. TLC evaluates the semantics for all 161 + 7 "
+          "patterns (and checks monotonicity of the reference). Every pattern is evaluated through entity_matching / match / "
+          "match_any / match_all / select in two domain orders and again after the edit on the same query object."),
+    design_ref="DESIGN.md §4 C11",
+    note=("Trusted: TLC, the concretisation of patterns into match(...) calls. Results compared as sets. Open finding C11-F02 "
+          "(unconstrained select = cross product) attributed by signature."),
+    technique="TLA+ pattern semantics enumerated with TLC; every pattern replayed through the match API",
+)
+
 NOT_YET = "check not built yet in this build round (specified in DESIGN.md §4; will be claimed when its TLA+ module and binding exist)"
 NOT_APPLICABLE = {}
